@@ -6,8 +6,9 @@ CONSTANTS
   MaxOps = 2
   MaxCommits = 2
   WithFault = TRUE
+  Spine = FALSE
   Emit = FALSE
-INVARIANTS RemoteUntouched CommitExact FaultReported CleanCommitNeverFails ViewEqIdeal
+INVARIANTS ViewEqIdealOL CommitExactRR FaultReportedRR RemoteUntouched CommitExact FaultReported CleanCommitNeverFails ViewEqIdeal
 VIEW ViewHist
-CONSTRAINT Clean
+CONSTRAINT Explorable
 CHECK_DEADLOCK FALSE
